@@ -143,6 +143,9 @@ Step1(sl) ==
         Take(Step("WithContextTags", i, <<i>>, E, a, E, 0, E))
   \/ \E o \in {"WrapWithHTTPCode", "WrapWithGrpcCode"} \cap Ops : \E i \in Targets(sl) : \E a \in CodePool :
         Take(Step(o, i, <<i>>, E, a, E, 0, E))
+  \/ On("EnsureNotInDomain") /\ \E i \in Targets(sl) : \E s \in SH2 :
+        \E f \in {<<t>> : t \in SH2} \cup {<<<<"NODOM">>>>} \cup {<<t, <<"NODOM">>>> : t \in SH2} :
+          Take(Step("EnsureNotInDomain", i, <<i>>, s, f, E, 0, E))
   \/ On("HandledInDomainWithMessage") /\ \E i \in Targets(sl) : \E s \in SH : \E t \in SH2 :
         Take(Step("HandledInDomainWithMessage", i, <<i>>, s, <<t>>, E, 0, E))
   \/ On("GoWrap") /\ \E i \in NonNil(sl) :
